@@ -23,7 +23,13 @@ class Deflate(Codec):
 	@classmethod
 	def decode(cls, data: bytes, charset: Optional[str]=None, mimetype: None=None) -> str:
 		try:
-			data = zlib.decompress(data)
+			streams = []
+			while data:  # the composer emits one zlib stream per piece of the content
+				decompressor = zlib.decompressobj()
+				streams.append(decompressor.decompress(data))
+				if not decompressor.eof:
+					raise zlib.error('incomplete or truncated stream')
+				data = decompressor.unused_data
 		except zlib.error:
 			raise DecodeError(_(u'Invalid zlib/deflate data.'))
-		return Codec.decode(data, charset)
+		return Codec.decode(b''.join(streams), charset)
